@@ -187,7 +187,7 @@ func Run(out string) {
 	nrand := 40
 	if tr.Tier() == "thorough" {
 		maxW, maxL = 3, 6
-		nrand = 1500
+		nrand = 600
 	}
 	allRanges := func(i, L int) [][3]int {
 		var out [][3]int
